@@ -136,6 +136,8 @@ func c18(c *Ctx) {
 		}
 	}
 
+	c.ExpectAll("posmap/server-reads-whole-map", c.CallArgs("http.(*Server).handlePostStream", p.PlainCalls("http.ReadPosMapFrom"), 0), pat("net/http.(*Request).WithContext(p2, @@).Body")+"|"+pat("p2.Body"), 1,
+		"the primary reads the replica's position map from the request body itself - the writer puts no bound on the map, so the reader must not either", "a valid map the client can write (tens of thousands of databases) would be refused on every reconnect")
 	c.ExpectAll("chunk/reader-no-read-ahead", c.fieldStores("chunk.NewReader", "chunk.Reader.r"), "p0", 1, "the chunk reader reads from the caller's reader itself - no buffering layer that could read past the end-of-body marker",
 		"the replica creates a chunk reader per LTX frame and goes back to the raw stream afterwards: bytes read ahead (the HWM, Ready or next LTX frame) would be lost with the chunk reader")
 	// ---- stateless codec ----
